@@ -5,9 +5,12 @@ package dht
 import (
 	"context"
 	"errors"
+	"time"
 
+	ks "github.com/libp2p/go-libp2p-kbucket/keyspace"
 	"github.com/libp2p/go-libp2p/core/peer"
 
+	"github.com/libp2p/go-libp2p-kad-dht/netsize"
 	pb "github.com/libp2p/go-libp2p-kad-dht/pb"
 )
 
@@ -57,3 +60,115 @@ func VfOptimisticWait() {
 }
 
 var _ = vfRegister("VfOptimisticWait", VfOptimisticWait)
+
+// ---- optimistic Provide end to end (C06, C03) ----
+//
+// The floating-point size estimate is abstracted to the decisions it induces:
+// the network size is known, and whether a peer is "close enough" to be sent
+// the record early is an arbitrary verdict per peer (distance 0 or 1 against
+// thresholds strictly between).
+
+func vfModelNetworkSize(e *netsize.Estimator) (int32, error) { return 1000, nil }
+func vfModelTrack(e *netsize.Estimator, key string, peers []peer.ID) error {
+	return nil
+}
+
+var vfNear map[peer.ID]bool
+
+func vfModelNormedDistance(p peer.ID, k ks.Key) float64 {
+	v, ok := vfNear[p]
+	if !ok {
+		v = vfBool("peer.veryCloseToTheKey")
+		vfNear[p] = v
+	}
+	if v {
+		return 0
+	}
+	return 1
+}
+func vfModelGammaIncRegInv(a, y float64) float64 { return 500 } // thresholds = 0.5
+
+//verif:intercept VfOptimisticProvide (*github.com/libp2p/go-libp2p-kad-dht/netsize.Estimator).NetworkSize = vfModelNetworkSize
+//verif:intercept VfOptimisticProvide (*github.com/libp2p/go-libp2p-kad-dht/netsize.Estimator).Track = vfModelTrack
+//verif:intercept VfOptimisticProvide github.com/libp2p/go-libp2p-kad-dht/netsize.NormedDistance = vfModelNormedDistance
+//verif:intercept VfOptimisticProvide gonum.org/v1/gonum/mathext.GammaIncRegInv = vfModelGammaIncRegInv
+
+// VfOptimisticProvide (C06): Provide on the optimistic path reaches every peer
+// the lookup returned exactly once with the right content, whether the record
+// was sent early or at the end, also when the caller cancels its context after
+// Provide returned while slow recipients are still pending.
+func VfOptimisticProvide() {
+	P := vfParam("P")
+	vfHashBits(vfParam("W"))
+	vfHashFixed()
+	vfNear = map[peer.ID]bool{}
+	e, ids, _ := vfClientEnv(P, P)
+	d := e.dht
+	d.enableOptProv = true
+	d.optProvJobsPool = make(chan struct{}, 1+vfChoose("jobsPool", 2))
+	ctx, cancel := context.WithCancel(context.Background())
+	defer cancel()
+	c := vfCid("content")
+	slow := map[peer.ID]bool{}
+	fails := map[peer.ID]bool{}
+	var adds []vfSent
+	delivered := map[peer.ID]int{}
+	e.sender.reply = func(rctx context.Context, p peer.ID, req *pb.Message) (*pb.Message, error) {
+		switch req.Type {
+		case pb.Message_FIND_NODE:
+			return pb.NewMessage(pb.Message_FIND_NODE, nil, 0), nil
+		case pb.Message_ADD_PROVIDER:
+			adds = append(adds, vfSent{p, req})
+			if _, ok := slow[p]; !ok {
+				slow[p] = vfBool("recipient.slow")
+				fails[p] = vfBool("recipient.fails")
+			}
+			if slow[p] {
+				// a slow but healthy recipient: answers after 2 s unless the request is abandoned
+				t := time.NewTimer(2 * time.Second)
+				defer t.Stop()
+				select {
+				case <-t.C:
+				case <-rctx.Done():
+					return nil, rctx.Err()
+				}
+			}
+			if fails[p] {
+				return nil, errors.New("rpc failed")
+			}
+			delivered[p]++
+			return nil, nil
+		}
+		return nil, errors.New("unexpected request")
+	}
+
+	err := d.Provide(ctx, c, true)
+	if vfBool("callerCancelsAfterProvideReturned") {
+		cancel()
+	}
+	vfAdvance(5 * time.Second)
+	vfWaitIdle()
+	vfAssert(err == nil, "optprovide/succeeds-when-the-lookup-succeeds")
+	for _, p := range ids {
+		n := 0
+		for _, s := range adds {
+			if s.to != p {
+				continue
+			}
+			n++
+			pp := s.msg.GetProviderPeers()
+			vfAssert(string(s.msg.GetKey()) == string(c.Hash()), "optprovide/announces-the-right-key")
+			vfAssert(len(pp) == 1 && peer.ID(pp[0].Id) == d.self && len(pp[0].Addrs) > 0, "optprovide/announcement-names-exactly-the-local-peer-with-addresses")
+		}
+		vfAssert(n == 1, "optprovide/one-announcement-per-closest-peer")
+		if !fails[p] {
+			vfAssert(delivered[p] == 1, "optprovide/healthy-recipients-get-the-record-even-if-the-caller-cancels-after-provide-returned")
+		}
+	}
+	vfAssert(len(e.provs.added) == 1 && e.provs.added[0].prov.ID == d.self, "optprovide/records-the-local-node-as-provider")
+	vfAssert(vfLiveGoroutines() == 1, "optprovide/no-goroutine-left-behind")
+	vfAssert(len(d.optProvJobsPool) == 0, "optprovide/all-job-leases-released")
+	vfReach("optprovide/provide-end")
+}
+
+var _ = vfRegister("VfOptimisticProvide", VfOptimisticProvide)
